@@ -39,6 +39,18 @@ CLAIMED = {
         "the value returned when every cache misses is not constrained (the statement fixes only the first hit).",
    technique="contract-based deductive verification: loop invariants over a ghost call log, call-binding VCs, z3",
    ref="5 C18"),
+ "C11": dict(
+   text="RendezvousHash.get_node is executed symbolically from the real source over a node list of symbolic length with an inductive loop "
+        "invariant, and its result is proved equal to the published rule taken from the statement (argmax of hash('<node>-<key>'), ties to "
+        "the greatest node name), with a frame obligation that nothing is written (purity; a call to hash()/id()/random is a failed purity "
+        "obligation). Order/history independence, minimal disruption on removal and on addition are z3 lemmas over that contract alone. "
+        "add_node/remove_node keep the list duplicate-free and change the node set as specified; HashClient.__init__ passes every server "
+        "through normalize_server_spec before add_server (loop invariant over a ghost log). Unbounded in nodes, keys and hash values.",
+   note="Trusted: pyvc VC generator; z3 (arrays + quantifiers); string order = code-point order; hash_function pure with results >= 0 (C14 for "
+        "murmur3_32). BOUNDED stand-in (not counted as discharged): equivalent address spellings of normalize_server_spec are enumerated on "
+        "the real function (about 50 spellings). Not expressible: 'keys spread over all servers' (statistical).",
+   technique="contract-based deductive verification: loop invariant + quantified lemmas (z3); one clause by bounded enumeration",
+   ref="5 C11"),
 }
 REASON_PENDING = "contracts designed (DESIGN.md section 5) but not yet mechanised; not claimed"
 
